@@ -134,11 +134,18 @@ def run(chk):
         srcs = value_sources(work)
         jobs = []
         asts = {}
+        firsts = [x for x in srcs if x.startswith("[") or x.startswith("map") or x.startswith("open(") or x.startswith("pcap_")
+                  or x in ("\"\"", "\"s\"", "\"{}\"", "stdout", "0", "1.5", "null", "true", "fn() { 1 }", "len", "'a'", "byte(0)")]
+        seconds = [lit(v) for v in (0, 1, -1, 2, 255, 256, 65536, I64_MAX, I64_MIN, -4096, 0.5, -0.0, math.nan, math.inf, "", "r", "w", "{}", None, True)] + ["[]", "[1, 2, 3]", "map {}", "'a'", "byte(255)"]
         for b in BUILTINS:
             jobs.append(("builtin", b, "%s()" % b))
             for s in srcs:
                 jobs.append(("builtin", b, "%s(%s)" % (b, s)))
-            n2 = 250 if quick else 2500
+            # structured pairs: every kind representative first, every boundary number / odd string second
+            for a in firsts:
+                for b2 in seconds:
+                    jobs.append(("builtin", b, "%s(%s, %s)" % (b, a, b2)))
+            n2 = 120 if quick else 2500
             for _ in range(n2):
                 jobs.append(("builtin", b, "%s(%s, %s)" % (b, rng.choice(srcs), rng.choice(srcs))))
             for _ in range(60 if quick else 600):
